@@ -12,7 +12,7 @@ from sim import core
 
 NAME = 'heap'
 PROPERTY = 'C14'
-RULE = ('one run = one HeapDict(k), k in {0,1,2,3,5,8,13}, 1-4 seeded producer '
+RULE = ('one run = one or two independent HeapDict(k), k in {0,1,2,3,5,8,13}, 1-4 seeded producer '
         'clients (keys of the three documented types incl. 1 / 1.0 collisions; '
         'item families int, float, tuple, str, and objects sortable only via '
         '__lt__) whose pushes are interleaved by the seeded schedule with '
@@ -84,7 +84,9 @@ def _encode_level(rng, family, level, uid):
 
 def generate(rng, tier, profile='default'):
   del profile
-  k = rng.choice(KS)
+  ks = [rng.choice(KS)]
+  if rng.random() < 0.3:
+    ks.append(rng.choice(KS))        # a second, independent container
   n_clients = rng.choice((1, 1, 2, 2, 3, 4))
   key_pool = [['i', 1], ['i', 2], ['i', 0], ['i', -3], ['f', 1.0], ['f', 2.5],
               ['s', 'a'], ['s', 'b'], ['s', '1'], ['f', 0.0], ['s', '']]
@@ -93,9 +95,10 @@ def generate(rng, tier, profile='default'):
   for _ in range(n_clients):
     key = rng.choice(key_pool)
     kv = key[1]
+    h = rng.randrange(len(ks))
     # Clients whose keys are equal as dict keys share a queue, so their items
     # must be mutually sortable: give them the family already bound to it.
-    marker = ('n', float(kv)) if key[0] in 'if' else ('s', kv)
+    marker = (h,) + (('n', float(kv)) if key[0] in 'if' else ('s', kv))
     if marker in fam_of_key:
       fam = fam_of_key[marker]
       if fam in ('int', 'float'):
@@ -103,7 +106,8 @@ def generate(rng, tier, profile='default'):
     else:
       fam = rng.choice(FAMILIES)
       fam_of_key[marker] = fam
-    clients.append({'key': key, 'family': fam, 'shape': rng.choice(SHAPES)})
+    clients.append({'key': key, 'family': fam, 'h': h,
+                    'shape': rng.choice(SHAPES)})
   max_ops = 12 if tier == 'quick' else 40
   n_ops = rng.randrange(2, max_ops + 1)
   p_read = rng.choice((0.1, 0.25, 0.4))
@@ -114,10 +118,12 @@ def generate(rng, tier, profile='default'):
   for _ in range(n_ops):
     r = rng.random()
     if r < p_read:
+      h = rng.randrange(len(ks))
       if rng.random() < p_mut:
-        ops.append({'op': 'read_mutate', 'how': rng.choice(MUTATIONS)})
+        ops.append({'op': 'read_mutate', 'h': h,
+                    'how': rng.choice(MUTATIONS)})
       else:
-        ops.append({'op': 'read'})
+        ops.append({'op': 'read', 'h': h})
     else:
       c = rng.randrange(n_clients)
       cl = clients[c]
@@ -126,10 +132,11 @@ def generate(rng, tier, profile='default'):
       uid += 1
       ops.append({'op': 'push', 'c': c,
                   'v': _encode_level(rng, cl['family'], level, uid)})
-  ops.append({'op': 'read'})
+  for h in range(len(ks)):
+    ops.append({'op': 'read', 'h': h})
   for cl in clients:
     del cl['shape']
-  return {'machine': NAME, 'k': k, 'clients': clients, 'ops': ops}
+  return {'machine': NAME, 'ks': ks, 'clients': clients, 'ops': ops}
 
 
 # --------------------------------------------------------------------------
@@ -226,12 +233,15 @@ def _mutate(res, how):
 
 
 def execute(desc):
-  core.install_repo_path()
-  from matched_markets.methodology import heapdict  # pylint: disable=g-import-not-at-top
-  k = desc['k']
+  heapdict, = core.fresh_modules('heapdict')
+  ks = desc['ks']
   clients = desc['clients']
-  h = heapdict.HeapDict(k)
-  model = {}
+  heaps = [heapdict.HeapDict(k) for k in ks]
+  models = [{} for _ in ks]
+  if len(ks) > 1:
+    stats_multi = True
+  else:
+    stats_multi = False
   events = []
   stats = {'ops': 0, 'compared': 0, 'faults': {}, 'probes': {},
            'states': set(), 'transitions': set()}
@@ -246,12 +256,14 @@ def execute(desc):
 
   def abstract_state():
     out = []
-    for key, pushed in model.items():
-      n = len(pushed)
-      fill = 'k0' if k == 0 else ('empty' if n == 0 else
-                                  'partial' if n < k else
-                                  'full' if n == k else 'evicting')
-      out.append((core._sort_key(core.canon(key)), fill))  # pylint: disable=protected-access
+    for hi, model in enumerate(models):
+      k = ks[hi]
+      for key, pushed in model.items():
+        n = len(pushed)
+        fill = 'k0' if k == 0 else ('empty' if n == 0 else
+                                    'partial' if n < k else
+                                    'full' if n == k else 'evicting')
+        out.append((hi, core._sort_key(core.canon(key)), fill))  # pylint: disable=protected-access
     return tuple(sorted(out))
 
   for step, op in enumerate(desc['ops']):
@@ -259,6 +271,10 @@ def execute(desc):
     stats['ops'] += 1
     if kind == 'push':
       cl = clients[op['c']]
+      hi = cl.get('h', 0)
+      h, model, k = heaps[hi], models[hi], ks[hi]
+      if stats_multi:
+        probe('push_with_two_containers_alive')
       key = _decode_key(cl['key'])
       item = _decode_value(cl['family'], op['v'])
       for kk in model:
@@ -296,8 +312,10 @@ def execute(desc):
         break
       pushed.append(item)
       absig.append(('push', op['c'], rel))
-      events.append([step, 'push', core.canon(cl['key']), _show(item)])
+      events.append([step, 'push', hi, core.canon(cl['key']), _show(item)])
     else:
+      hi = op.get('h', 0)
+      h, model, k = heaps[hi], models[hi], ks[hi]
       try:
         res = h.get_result()
       except Exception as e:  # pylint: disable=broad-except
@@ -338,7 +356,7 @@ def execute(desc):
   stats['transitions'] = sorted(stats['transitions'])
   return {'violation': viol,
           'digest': core.digest_of(events),
-          'signature': core.digest_of([k, absig]),
+          'signature': core.digest_of([ks, absig]),
           'nontrivial': bool(nontrivial),
           'stats': stats}
 
@@ -360,12 +378,21 @@ def normalize(desc):
 
 def simplifications(desc):
   """Smaller / simpler candidate descriptions (config passes)."""
-  if desc['k'] > 0:
-    for k in sorted({0, 1, desc['k'] - 1, desc['k'] // 2}):
-      if 0 <= k < desc['k']:
+  for hi, cur in enumerate(desc['ks']):
+    for k in sorted({0, 1, cur - 1, cur // 2}):
+      if 0 <= k < cur:
         d = copy.deepcopy(desc)
-        d['k'] = k
+        d['ks'][hi] = k
         yield d
+  if len(desc['ks']) > 1:
+    d = copy.deepcopy(desc)           # everything onto one container
+    d['ks'] = d['ks'][:1]
+    for cl in d['clients']:
+      cl['h'] = 0
+    for op in d['ops']:
+      if 'h' in op:
+        op['h'] = 0
+    yield d
   for i, op in enumerate(desc['ops']):
     if op['op'] == 'read_mutate':
       d = copy.deepcopy(desc)
